@@ -148,7 +148,26 @@ fn panic_text(p: Box<dyn std::any::Any + Send>) -> String {
     p.downcast_ref::<String>().cloned().or_else(|| p.downcast_ref::<&str>().map(|s| s.to_string())).unwrap_or_else(|| "panic".into())
 }
 
-pub fn execute(sc: &Scenario, _env: &Env) -> (Outcome, RunStats) {
+/// The fold runs on a fresh thread with the simulated randomness seeded from the scenario, so that
+/// per-thread hash seeds (`RandomState`) are a function of the scenario: a fold whose result
+/// depends on hash iteration order then fails — or passes — identically in the worker and in the
+/// replay process.
+pub fn execute(sc: &Scenario, env: &Env) -> (Outcome, RunStats) {
+    let seed = fnv1a(serde_json::to_string(&sc.delivered).unwrap_or_default().as_bytes());
+    crate::seam::sim_rand_reset(seed, true);
+    let sc2 = sc.clone();
+    let root = env.root.clone();
+    let tier = env.tier;
+    let r = std::thread::Builder::new().stack_size(16 << 20).spawn(move || execute_on_thread(&sc2, &Env { root, tier })).map(|h| h.join());
+    crate::seam::sim_rand_disable();
+    match r {
+        Ok(Ok(x)) => x,
+        Ok(Err(_)) => (Outcome::Harness("fold thread panicked outside catch_unwind".into()), RunStats::default()),
+        Err(e) => (Outcome::Harness(format!("spawn: {e}")), RunStats::default()),
+    }
+}
+
+fn execute_on_thread(sc: &Scenario, _env: &Env) -> (Outcome, RunStats) {
     let mut stats = RunStats::default();
     let events: Vec<Event> = match sc.delivered.iter().map(|v| serde_json::from_value::<Event>(v.clone())).collect::<Result<Vec<_>, _>>() {
         Ok(e) => e,
